@@ -277,6 +277,18 @@ def _inv_type_def_numeric_factor_gensym(L):
     C.mk_cls('DKG', define_as=(L.classes['DA'] ** 3) * 2)
 
 
+def _opt_type_quantum_zero(L):
+    C.mk_cls('DZ', ref_unit_symbol='z0', quantum=0)
+
+
+def _opt_type_quantum_negative(L):
+    C.mk_cls('DZN', ref_unit_symbol='zn0', quantum=Fraction(-1, 4))
+
+
+def _opt_type_quantum_zero_derived(L):
+    C.mk_cls('DZD', define_as=L.classes['DA'] ** 3, ref_unit_symbol='zd0', quantum=0)
+
+
 def _inv_type_unknown_keyword(L):
     C.mk_cls('DK', ref_unit_symbol='kw0', ref_unit_nmae='Kay')
 
@@ -299,6 +311,10 @@ INVALID = [
     ('type-def-numeric-factor', ('DA', 'DB'), 'AssertionError', _inv_type_def_numeric_factor, ['kf0']),
     ('type-def-of-units', ('DA', 'DB'), 'AssertionError', _inv_type_def_of_units, ['ku0']),
     ('type-def-numeric-factor-gensym', ('DA',), 'AssertionError', _inv_type_def_numeric_factor_gensym, ['a0³']),
+    # 'Optional': the library may accept or reject these; if it rejects, nothing may be left behind
+    ('type-quantum-zero', (), 'Optional', _opt_type_quantum_zero, ['z0']),
+    ('type-quantum-negative', (), 'Optional', _opt_type_quantum_negative, ['zn0']),
+    ('type-quantum-zero-derived', ('DA',), 'Optional', _opt_type_quantum_zero_derived, ['zd0']),
     ('type-unknown-keyword', (), 'AssertionError', _inv_type_unknown_keyword, ['kw0']),
     ('type-unknown-keyword-derived', ('DA',), 'AssertionError', _inv_type_unknown_keyword_derived, ['kw3']),
     ('type-quantum-without-ref-unit', (), 'AssertionError', _inv_type_quantum_without_ref_unit, []),
